@@ -723,6 +723,10 @@ func redactScalarValue(keyPath []string, v interface{}, isSearchStage bool, isSe
 				return redactString(s, RedactedUUID)
 			}
 		}
+	case "subType":
+		if grandParentKey == "$binary" {
+			return v // the BSON binary subtype is not user data
+		}
 	}
 	switch v.(type) {
 	case nil:
